@@ -88,7 +88,15 @@ inductive Look
   | exportStruct (pkg raw m : Str)           -- b.Pkg(pkg).ExportStruct(raw).Method(m)
   deriving Repr
 
+/-- a mocker object made with the exported constructors of mocker.go, outside the builder caches -/
+inductive Direct
+  | um (pkg sn m : Str)          -- NewUnexportedMethodMocker(pkg, sn) … .Method(m)   (`sn` verbatim: `T` or `(*T)`)
+  | mm (t : Ty) (m : Str)        -- NewMethodMocker(_, inst) … .Method(m)
+  deriving Repr
+
 inductive Step
+  | direct (h : Nat) (d : Direct)                          -- h := New…Mocker(..).Method(m): a fresh, uncached object
+  | redirect (h : Nat) (d : Direct)                        -- the SAME object again: h.Method(m') (mocker.go:213, :378)
   | shot (l : Look)                                        -- lookup, then Apply(cb k) on the result (not kept)
   | look (h : Nat) (l : Look)                              -- h := lookup
   | apply (h : Nat)                                        -- h.Apply(cb k)
@@ -252,7 +260,27 @@ def applyCb (syms : List Str) (s : HState) (id : Nat) (k : Nat) : HState × Res 
     let r := applyMk syms s id (.cb k) (!mk.byName)
     if r.2 = .ok then (clearWhen r.1 id, .ok) else r
 
+/-- the symbol a directly constructed mocker patches: `objName` (mocker.go:373), resp. reflect resolution -/
+def directName (entries : List Entry) : Direct → Except Str Str
+  | .um pkg sn m => .ok (objName pkg sn m)
+  | .mm t m => resolveSM entries t m
+
+def Direct.byName : Direct → Bool
+  | .um .. => true
+  | .mm .. => false
+
 def step (syms : List Str) (entries : List Entry) (s : HState) (k : Nat) : Step → HState × Res
+  | .direct h d =>
+    match directName entries d with
+    | .error c => (s, .err c)
+    | .ok name =>
+      ({ s with mockers := (s.nextId, ⟨d.byName, name, none, false, none, false⟩) :: s.mockers, nextId := s.nextId + 1,
+                handles := (h, s.nextId) :: s.handles }, .ok)
+  | .redirect h d =>
+    withMk s h fun id mk =>
+      match directName entries d with
+      | .error c => (s, .err c)        -- (MethodMocker.Method panics; never generated)
+      | .ok name => (setMk s id { mk with target := name }, .ok)   -- method name replaced, everything else kept
   | .shot l =>
     let r := lookup entries s l
     match r.2 with
@@ -334,6 +362,15 @@ def call (syms : List Str) (s : HState) (e : Entry) : HState × CallObs :=
           let r := w.invoke
           (setMk s id { mk with whenS := some r.1 }, match r.2 with | some v => .val v | none => .panic)
 
+/-- a call through the method set of `*Outer` of a method promoted from an embedded struct: it enters the
+    compiler-generated wrapper `pkg.(*Outer).m` (entry `e`), which adjusts the receiver and calls the embedded type's
+    method (entry `base`) — Go semantics, observed not proved.  So a mock of the wrapper wins, else whatever the base
+    method does. -/
+def callVia (syms : List Str) (s : HState) (e : Entry) (base : Option Entry) : HState × CallObs :=
+  match behavOf syms s.patched e, base with
+  | none, some b => call syms s b
+  | _, _ => call syms s e
+
 /-! ## specification vocabulary -/
 
 /-- the symbol a lookup names, from its own text -/
@@ -345,6 +382,14 @@ def lookName (entries : List Entry) : Look → Option Str
 def stepLook : Step → Option Look
   | .shot l => some l
   | .look _ l => some l
+  | _ => none
+
+/-- the symbol a step names, from the step's own text only -/
+def stepName (entries : List Entry) : Step → Option Str
+  | .shot l => lookName entries l
+  | .look _ l => lookName entries l
+  | .direct _ d => (match directName entries d with | .ok n => some n | .error _ => none)
+  | .redirect _ d => (match directName entries d with | .ok n => some n | .error _ => none)
   | _ => none
 
 /-- forget handles, mocker objects and stubs: the patch-level state of `Model/Method.lean` -/
